@@ -430,11 +430,14 @@ func signedAreaOfLinearRing(lr LineString, transform func(XY) XY) float64 {
 		return pt
 	}
 
-	pt1 := nthPt(0)
+	// X is taken relative to the first vertex, which leaves the area
+	// unchanged but avoids cancellation for rings far from the origin.
+	base := nthPt(0)
+	pt1 := base
 	for i := 0; i < n-1; i++ {
 		pt0 := pt1
 		pt1 = nthPt(i + 1)
-		sum += (pt1.X + pt0.X) * (pt1.Y - pt0.Y)
+		sum += ((pt1.X - base.X) + (pt0.X - base.X)) * (pt1.Y - pt0.Y)
 	}
 	return sum / 2
 }
